@@ -32,6 +32,7 @@ type Env struct {
 	stack   []string                     // spec function call stack
 	inQuant int
 	callStates map[string]*State
+	visited func(st *State, k TV) string // membership in the ghost visited set of the enclosing map-range loop
 }
 
 func (e *Env) clone() *Env {
@@ -565,6 +566,12 @@ func (e *Env) evalCall(x *ast.CallExpr) TV {
 			return n.eval(x.Args[0])
 		case "implies":
 			return boolTV(implies(e.evalBool(x.Args[0]), e.evalBool(x.Args[1])))
+		case "visited":
+			// visited(k): key k has already been produced by the map-range loop this invariant belongs to
+			if e.visited == nil || len(x.Args) != 1 {
+				e.fail(x, "visited(k) is only allowed in invariants of a `for k, v := range m` loop over a map")
+			}
+			return boolTV(e.visited(e.st, e.eval(x.Args[0])))
 		case "len":
 			a := e.eval(x.Args[0])
 			switch u := under(a.T).(type) {
@@ -642,6 +649,10 @@ func (e *Env) evalCall(x *ast.CallExpr) TV {
 					ts := []string{bv}
 					n.names[nm.Name] = TV{build(t, &ts), t}
 					guard = and(guard, rangeFact(t, bv))
+					if _, isPtr := under(t).(*types.Pointer); isPtr {
+						// quantification over pointers means: over the objects allocated in the state the clause is evaluated in
+						guard = and(guard, lt("0", bv), lt(bv, e.vc.allocOf(e.st)))
+					}
 				}
 			}
 			e.vc.inBinder++
@@ -704,6 +715,16 @@ func (e *Env) evalCall(x *ast.CallExpr) TV {
 			}
 			inside := and(le(plus(sv.Off, lo), i), lt(i, plus(sv.Off, hi)))
 			return boolTV(forall([][2]string{{i, "Int"}}, implies(not(inside), and(cs...))))
+		case "mapHas":
+			// mapHas(m, k): key k is present in map m (the `ok` of `v, ok := m[k]`)
+			a := e.eval(x.Args[0])
+			mt, ok := under(a.T).(*types.Map)
+			if !ok || len(x.Args) != 2 {
+				e.fail(x, "mapHas needs a map and a key")
+			}
+			k := e.coerce(e.eval(x.Args[1]), mt.Key())
+			_, dom := e.vc.mapLookup(e.st, a.term(), mt, k.V)
+			return boolTV(dom)
 		case "bytesAt":
 			// bytesAt(buf, o, val): buf[o : o+len(val)] equals val, quantified over the absolute index of buf (pattern-friendly)
 			a := e.eval(x.Args[0]).V.(*SliceV)
